@@ -185,7 +185,8 @@ def check_lift(spec, ctx):
 
 def check_lifted(ctx, clause, lifted, eb, strand, cs, v):
     if not eb:
-        ctx.true(clause + ":deleted_is_empty", lifted is EmptyLocation() or lifted.is_empty or len(lifted) == 0, {"lifted": repr(lifted)[:80], "variant": v})
+        # "locations deleted entirely become empty": the empty location, not an interval of length 0 left where the bases were
+        ctx.true(clause + ":deleted_is_empty", lifted is EmptyLocation() or lifted.is_empty, {"lifted": repr(lifted)[:80], "variant": v})
         return
     if lifted.is_empty or len(lifted) == 0:
         ctx.fail(clause + ":unexpectedly_empty", {"expected": [x[:2] for x in eb], "variant": v})
@@ -193,6 +194,8 @@ def check_lifted(ctx, clause, lifted, eb, strand, cs, v):
     exp_pos = sorted(rm.posset([(a - cs, b - cs) for a, b, _ in eb]))
     ctx.eq(clause + ":positions", sorted(rm.posset(rm.loc_blocks(lifted))), exp_pos, extra={"variant": v})
     ctx.eq(clause + ":strand", rm.loc_strand(lifted), strand)
+    # a block whose bases were all deleted is gone: no zero-length block stays behind in the lifted location
+    ctx.true(clause + ":no_zero_length_block_left", all(e_ > s_ for s_, e_ in rm.loc_blocks(lifted)), {"blocks": rm.loc_blocks(lifted), "variant": v})
     try:
         seq = str(lifted.extract_sequence())
     except BioCantorException as e:
@@ -464,6 +467,14 @@ def strat_lift(draw, tier="quick"):
     n = hi + draw(st.sampled_from([0, 1, 2, 3, 4, 5, 6, 7, 8]))
     g = draw(S.dna(n, n))
     variants = draw(S.variant_specs(max(0, lo - 8), min(n, hi + 6), max_n=4))
+    if draw(st.integers(0, 7)) == 0:
+        # a deletion that removes exactly one block of the location (unpadded, or padded with the base before it when that base is
+        # not part of the location): the block disappears, the others keep their bases - on either strand
+        b_ = draw(st.sampled_from(bl))
+        if b_[0] >= 1 and draw(st.booleans()) and not any(s_ <= b_[0] - 1 < e_ for s_, e_ in bl):
+            variants = [{"start": b_[0] - 1, "end": b_[1], "sequence": g[b_[0] - 1], "variant_type": "deletion"}]
+        else:
+            variants = [{"start": b_[0], "end": b_[1], "sequence": "", "variant_type": "deletion"}]
     sp = {"genome": g, "blocks": bl, "strand": draw(st.sampled_from(["+", "-"])), "variants": variants,
           "shuffle": list(draw(st.permutations(list(range(len(variants))))))}
     if draw(st.integers(0, 2)) == 0:
